@@ -63,7 +63,7 @@ class C14(Check):
             "non-trivial = a call stopped early; distinct = distinct (precision, stop positions per call, folder, line-up sizes)")
     assumptions = ["Calibrator.calibrate/check_convergence/create_checkpoint/restore: real code", "losses dictated through the model seam; scripted "
                    "values stay away from the half-unit rounding boundary so numpy and mathematical rounding agree"]
-    quick = {"runs": 700, "wall": 50, "item_timeout": 60}
+    quick = {"runs": 1500, "wall": 150, "item_timeout": 200}
     thorough = {"runs": 30000, "wall": 900, "item_timeout": 120}
 
     def gen(self, rng, tier, i):
